@@ -165,6 +165,24 @@ def valid(case):
     return (d is None or (isinstance(d, int) and d >= 1)) and len(case["values"]) <= 14
 
 
+@st.composite
+def one_huge_cases(draw):
+    """One item far larger than all the others together (10^6 ... 2^45) among 3-9 small ones: every partition has a huge difference, and
+    the good ones differ from the bad ones by a few units - a relative 10^-9 ... 10^-13 of the value compared."""
+    seed = draw(st.integers(0, 2 ** 48))
+    n = 3 + seed % 7
+    small = S.splitmix(seed >> 4, n, 0 if (seed >> 3) % 4 == 0 else 1, [10, 100, 100, 1000][(seed >> 8) % 4])
+    huge = [10 ** 6, 10 ** 9, 10 ** 10, 10 ** 12, 2 ** 40, 2 ** 45][(seed >> 10) % 6] + (seed >> 14) % 1000
+    pos = (seed >> 24) % (n + 1)
+    values = small[:pos] + [huge] + small[pos:]
+    case = {"alg": "cbldm", "values": values, "numbins": 2, "pres": draw(st.sampled_from(["list", "list", "dict-str", "names"])),
+            "nseed": draw(st.integers(0, 3)), "profile": "one-huge-item"}
+    d = [None, 1, 1, 2, 3][(seed >> 30) % 5]
+    if d is not None:
+        case["opts"] = {"partition_difference": d}
+    return case
+
+
 def legs(tier):
     return [
         Leg("corpus", evaluate, "docstring inputs and the author's all-ones instance", corpus=common.load_corpus(PROP),
@@ -178,6 +196,9 @@ def legs(tier):
         Leg("binding", evaluate, "hypothesis: 6-10 items built so that the bound (1 or 2) binds - one item of about half the rest, two items "
             "that together about match the rest, one or two big items among small ones; same oracle and rule",
             strategy=binding_cases(), n_quick=6000, n_thorough=120000, valid=valid, floor=0.5),
+        Leg("one-huge-item", evaluate, "hypothesis: one item of 10^6 ... 2^45 among 3-9 small ones, bound default / 1 / 2 / 3: differences of "
+            "10^6 ... 10^13 that good and bad partitions change by a few units; same oracle and rule",
+            strategy=one_huge_cases(), n_quick=1500, n_thorough=30000, valid=valid, floor=0.03),
         Leg("larger", evaluate, "hypothesis: 13-17 items (values 0..100, 1..1000, few big + many small, 2-3 distinct values), bound default / 1 / 2 / 3: "
             "beyond 2^n brute force, exact with the DP oracle; same rule", strategy=larger_cases(), n_quick=500, n_thorough=10000,
             valid=valid_larger, floor=0.03),
